@@ -1,7 +1,7 @@
 (* C14 — boundary parameter values the constructors ACCEPT: the distribution degenerates to a point mass
    (negative binomial p = 0, binomial theta = 0 / theta = 1, geometric p = 1).  The log-density must be 0 at the atom
    (the `0^0 = 1` special cases: x == 0 / n - x == 0 skip the product with log 0 = -Inf, which would be NaN) and
-   -Inf everywhere else.  Negative binomial p = 1 is accepted as well although p^k (1-p)^r is then identically 0. *)
+   -Inf everywhere else.  Negative binomial p = 1 (where p^k (1-p)^r is identically 0) is rejected by the constructor. *)
 From Coq Require Import Reals ZArith Bool Lra Lia Psatz List.
 From Flocq Require Import Core.Raux.
 From ADV Require Import Base.Num C14.ER C14.Model C14.Spec C14.ProofsER C14.ProofsCont C14.ProofsDisc.
@@ -22,7 +22,7 @@ Lemma negbinomial_p0_point_mass r : 0 < r -> lgam 1 = 0 ->
     (forall k, (k < 0)%Z -> nb_logpdf lgam d (IZR k) = Val NInf) /\
     (forall x, is_intb x = false -> nb_logpdf lgam d x = Val NInf).
 Proof.
-  intros Hr Hl. unfold nb_new. rewrite Rleb_f, !Rltb_f by lra. cbn [orb].
+  intros Hr Hl. unfold nb_new. rewrite !Rleb_f, !Rltb_f by lra. cbn [orb].
   eexists; split; [reflexivity|]. repeat split; unfold nb_logpdf; cbn [m_r m_lp m_z m_c1].
   - change 0 with (IZR 0) at 2 3. rewrite is_intb_IZR. rewrite Rltb_f by lra. cbn [negb orb].
     rewrite Reqb_t by reflexivity. red_er. rewrite !elgam_pos by lra. rewrite elog_pos by lra. red_er.
@@ -35,16 +35,23 @@ Proof.
   - intros x Hx. rewrite Hx. cbn [negb]. rewrite orb_true_r. reflexivity.
 Qed.
 
-(* p = 1 is accepted too: the header's p^k (1-p)^r is identically 0: LogPdf = -Inf on the whole support *)
-Lemma negbinomial_p1_no_mass r : 0 < r ->
-  exists d, nb_new lgam r 1 = Some d /\ forall k, (0 <= k)%Z -> nb_logpdf lgam d (IZR k) = Val NInf.
+(* p = 1 is rejected (guard `p >= 1.0`): the header's p^k (1-p)^r would be identically 0 there.  The constructor
+   accepts exactly r > 0 and 0 <= p < 1 *)
+Lemma negbinomial_p1_rejected r : nb_new lgam r 1 = None.
 Proof.
-  intros Hr. unfold nb_new. rewrite Rleb_f, !Rltb_f by lra. cbn [orb].
-  eexists; split; [reflexivity|]. intros k Hk. unfold nb_logpdf; cbn [m_r m_lp m_z m_c1].
-  pose proof (IZR_nonneg k Hk). rewrite is_intb_IZR. rewrite Rltb_f by lra. cbn [negb orb].
-  red_er. rewrite (elog_zero (1 + - (1))) by lra. rewrite (elog_pos 1) by lra. red_er. rewrite inf_times_pos by lra.
-  rewrite !elgam_pos by lra. red_er.
-  destruct (Reqb (IZR k) 0); red_er; reflexivity.
+  unfold nb_new. rewrite (Rleb_t 1 1) by lra. rewrite !orb_true_r. reflexivity.
+Qed.
+
+Lemma negbinomial_ctor_domain r p : (exists d, nb_new lgam r p = Some d) <-> negbinomial_valid r p.
+Proof.
+  unfold negbinomial_valid, nb_new. split.
+  - intros [d H]. destruct (Rleb r 0) eqn:E1; [discriminate|]. destruct (Rltb p 0) eqn:E2; [discriminate|].
+    destruct (Rleb 1 p) eqn:E3; [discriminate|]. clear H.
+    assert (Hr : ~ r <= 0) by (intro A; apply Rleb_t in A; congruence).
+    assert (Hp : ~ p < 0) by (intro A; apply Rltb_t in A; congruence).
+    assert (Hq : ~ 1 <= p) by (intro A; apply Rleb_t in A; congruence).
+    lra.
+  - intros [Hr [H0 H1]]. rewrite !Rleb_f, !Rltb_f by lra. cbn [orb]. eexists; reflexivity.
 Qed.
 
 (* ------------------------------------------------------- geometric, p = 1: point mass at 0 *)
